@@ -17,7 +17,7 @@ partial def loop (h : IO.FS.Stream) (st : JState) (mode : String) : IO JState :=
   let l := (line.trimAscii).toString
   if l.isEmpty then loop h st mode
   else
-    let (st', outs) := if mode == "judge" then judgeLine st l else if mode == "buildflags" then (st, [buildFlagsLine l]) else modelLine st l
+    let (st', outs) := if mode == "judge" then judgeLine st l else if mode == "buildflags" then (st, [buildFlagsLine l]) else if mode == "witness" then (st, witnessLine l) else modelLine st l
     for o in outs do IO.println o
     loop h st' mode
 
